@@ -21,7 +21,7 @@ ArityOK(op, a) == op \in S!ParseOps \/ (op \in DOMAIN OpIndex /\ Len(a) = Len(In
 
 ExpectOf(e) == LET f == FamOf(e.op) IN
   IF f = "unknown-op" \/ ~ArityOK(e.op, e.args) THEN "malformed" ELSE Expect(f, e.args)
-WhyE(e) == LET x == ExpectOf(e) IN
+WhyX(e, x) ==
   IF x = "malformed" THEN "malformed-event"
   ELSE IF e.out.k \notin {"ok", "err", "panic", "timeout", "abort"} THEN "malformed-outcome"
   ELSE Why(x, e.out)
@@ -31,7 +31,7 @@ Init == l = 1 /\ bad = <<>> /\ cnt = [must |-> 0, never |-> 0, may |-> 0, exclud
 Next == /\ l <= Len(Rec)
         /\ LET e == Rec[l]
                x == ExpectOf(e)
-               w == WhyE(e)
+               w == WhyX(e, x)
            IN /\ bad' = IF w = "" THEN bad ELSE Append(bad, [i |-> l, why |-> w])
               /\ cnt' = [cnt EXCEPT ![x] = @ + 1]
         /\ l' = l + 1
